@@ -1,6 +1,10 @@
 package websocket
 
-import "net/http"
+import (
+	"context"
+	"net/http"
+	"time"
+)
 
 // C02.frame: one writeFrame call with symbolic arguments on a fresh Conn of either role: the bytes on the
 // transport decode (independent decoder) to exactly one frame carrying those arguments, masked iff client
@@ -328,8 +332,10 @@ func verifC02_stale_writer() {
 	w1.Write(a)
 	vAssert(w1.Close() == nil, "C02.stale.first-close-ok")
 	want = append(want, vSent{MessageText, a})
-	between := vChoose("between", 3)
-	vClassify("between", []string{"nothing", "a-plain-Write", "a-new-Writer-left-open"}[between])
+	between := vChoose("between", 4)
+	vClassify("between", []string{"nothing", "a-plain-Write", "a-new-Writer-left-open", "a-Writer-left-open-on-another-connection"}[between])
+	var tB *vTransport
+	var cB *Conn
 	var w2 interface {
 		Write([]byte) (int, error)
 		Close() error
@@ -340,6 +346,17 @@ func verifC02_stale_writer() {
 		want = append(want, vSent{MessageBinary, b})
 	case 2:
 		w2, err = c.Writer(vBG, MessageBinary)
+		vAssert(err == nil, "C02.stale.second-writer-ok")
+		if err != nil {
+			return
+		}
+		w2.Write(b)
+	case 3:
+		// whatever the library shares between connections (pools), a finished message's writer belongs to ITS connection
+		tB = vNewTransport(nil)
+		tB.endMode = vEndBlock
+		cB = vNewConn(tB, client, vCopts(vParam("deflate", 0)), 16, 64)
+		w2, err = cB.Writer(vBG, MessageBinary)
 		vAssert(err == nil, "C02.stale.second-writer-ok")
 		if err != nil {
 			return
@@ -357,10 +374,38 @@ func verifC02_stale_writer() {
 		e2 = w1.Close()
 	}
 	vReach("C02.stale.used")
+	if w2 != nil && cB == nil {
+		// a third party tries to send while the second message is open: it has to wait (here: until its context ends);
+		// if it reports success its frame must still not sit inside the open message (judged on the wire below)
+		ictx, icancel := context.WithTimeout(vBG, time.Second)
+		ierr := c.Write(ictx, MessageText, vBytes("i", 1))
+		icancel()
+		if ierr == nil {
+			vClassify("intruder", "reported-success")
+		}
+	}
 	if w2 != nil {
 		w2.Write(b2)
 		vAssert(w2.Close() == nil, "C02.stale.live-writer-closes")
-		want = append(want, vSent{MessageBinary, append(append([]byte{}, b...), b2...)})
+		if cB == nil {
+			want = append(want, vSent{MessageBinary, append(append([]byte{}, b...), b2...)})
+		} else {
+			// the other connection carries exactly its own message
+			fB, okB := vParseWritten(tB.out)
+			goodB, inB, nB := vWireSequenceOK(fB, client)
+			vAssert(okB && goodB && !inB && nB == 1, "C02.stale.other-connection-carries-only-its-own-message")
+			var pl []byte
+			for _, f := range fB {
+				if f.opcode < 8 {
+					pl = append(pl, f.payload...)
+				}
+			}
+			if vParam("deflate", 0) == 0 {
+				vAssert(vEqBytes(pl, append(append([]byte{}, b...), b2...)), "C02.stale.other-connection-carries-only-its-own-message")
+			}
+			vAssert(e1 != nil || stale == 1, "C02.stale.write-on-a-finished-writer-fails")
+			cB.CloseNow()
+		}
 	}
 	vAssert(c.Write(vBG, MessageText, d) == nil, "C02.stale.later-write-ok")
 	want = append(want, vSent{MessageText, d})
